@@ -80,6 +80,7 @@ struct Swarm {
     unsigned n_ops = 30;
     unsigned rotate_export_pm = 500;
     unsigned untimed_pm = 200;      // records without a timestamp
+    bool crash_mode = false;        // crash scenarios: named outputs, older files under target names, rotation onto existing / open names
     std::vector<std::string> ip_pool, name_pool, payload_pool;
     std::vector<CDNS::ClassType> ct_pool;
 };
@@ -145,7 +146,7 @@ inline CDNS::BlockParameters block_parameters(Rng& r, bool rich) {
     return bp;
 }
 
-enum Profile { P_GENERAL, P_HINTS, P_ROTATE, P_FLUSH, P_TABLES, P_TIME, P_PREAMBLE, P_EMPTY, P_BIG, P_CRASH };
+enum Profile { P_GENERAL, P_HINTS, P_ROTATE, P_FLUSH, P_TABLES, P_TIME, P_PREAMBLE, P_EMPTY, P_BIG, P_CRASH, P_FAULT };
 
 inline Swarm swarm(uint64_t seed, Profile prof) {
     Rng r(sim::mix_str(seed, "swarm"));
@@ -184,10 +185,12 @@ inline Swarm swarm(uint64_t seed, Profile prof) {
         case P_PREAMBLE: s.n_ops = (unsigned)r.range(1, 4); break;
         case P_EMPTY: s.empty_stats_pm = 500; s.stats_pm = 600; s.empty_struct_pm = 500; s.w_ext = 6; break;
         case P_BIG: s.big_pm = 120; s.n_ops = (unsigned)r.range(10, 40); break;
-        case P_CRASH: s.n_ops = (unsigned)r.range(2, 14); s.w_rotate = 5; s.fd_output = false; s.big_pm = r.chance(1, 4) ? 60 : 0; break;
+        case P_CRASH: s.crash_mode = true; s.n_ops = (unsigned)r.range(2, 14); s.w_rotate = 5; s.fd_output = false; s.big_pm = r.chance(1, 4) ? 60 : 0; break;
+        case P_FAULT: s.crash_mode = !s.fd_output; s.n_ops = (unsigned)r.range(2, 16); s.w_rotate = 4; s.w_write = 4; s.big_pm = r.chance(1, 3) ? 80 : 0; s.w_add = 0; break;
         default: break;
     }
     if (prof != P_EMPTY && r.chance(1, 5)) s.w_ext = 2;
+    if (prof == P_FAULT) s.w_ext = 0;
     for (unsigned i = 0; i < s.pool; i++) {
         s.ip_pool.push_back(bytes(r, r.chance(1, 8) ? r.below(20) : (r.coin() ? 4 : 16)));
         s.name_pool.push_back(bytes(r, string_len(r, 0)));
